@@ -131,19 +131,24 @@ def sp_part(ck: Check):
 
 
 POOL_VALID = ['globally: no a', 'globally: some b {x > 1} within 100 ms', 'after a as A until (b or c): d {y < @A.y} causes e within 2 s', 'until q: x1 requires y1',
-              'after (p0 or p1): s forbids t {forall v in xs: @v != 0}', 'globally: no (m or n {not p})']
+              'after (p0 or p1): s forbids t {forall v in xs: @v != 0}', 'globally: no (m or n {not p})',
+              # characters that str.splitlines()/str.split() treat as separators are ordinary characters inside HPL strings
+              'globally: no a {s = "core\x0cdump" or s = "x\u2028y"}', 'globally: some b {s != "a\x0bb\x1cc\x85d\re"}']
 POOL_INVALID = [('globally: no', 'HplSyntaxError'), ('globally no a', 'HplSyntaxError'), ('globally: some b {x + 1}', 'TypeError'), ('after a as A: some b as A', 'HplSanityError'),
                 ('globally: no a {@Z.x > 1}', 'HplSanityError'), ('globally: no (a or a)', 'HplSanityError'), ('globally: some b {foo(x) > 1}', 'ValueError'),
-                ('# id: a\n# id: b\nglobally: no a', 'HplSyntaxError'), ('# colour: "red"\nglobally: no a', 'HplSyntaxError'), ('# title: unquoted\nglobally: no a', 'HplSyntaxError')]
+                ('# id: a\n# id: b\nglobally: no a', 'HplSyntaxError'), ('# colour: "red"\nglobally: no a', 'HplSyntaxError'), ('# title: unquoted\nglobally: no a', 'HplSyntaxError'),
+                # not whitespace for HPL (only space, tab, form feed, CR, LF are)
+                ('globally: no a \x0b', 'HplSyntaxError'), ('\x1cglobally: no a', 'HplSyntaxError'), ('globally: no a\u2028', 'HplSyntaxError'), ('globally:\x85no a', 'HplSyntaxError')]
 ANNOT = [('id', 'p{}'), ('title', '"Title {}"'), ('description', '"some text # with a hash {}"')]
-SEPS = ['\n', '\n\n', ' ', '\n  \t\n', '\r\n']
+ANNOT_EXOTIC = {'title': '"Ti\x0ctle\u2028 {}"', 'description': '"line\x0b one\x1c\x85 # {}\r"'}
+SEPS = ['\n', '\n\n', ' ', '\n  \t\n', '\r\n', '\x0c', '\r', ' \x0c\n']
 
 
 def annotate(text: str, keys: Tuple[str, ...], i: int) -> Tuple[str, Dict[str, str]]:
     head = ''
     md = {}
     for k in keys:
-        v = dict(ANNOT)[k].format(i)
+        v = (ANNOT_EXOTIC[k] if (i % 3 == 2 and k in ANNOT_EXOTIC) else dict(ANNOT)[k]).format(i)
         head += f'# {k}: {v}\n'
         md[k] = v
     return head + text, md
@@ -166,6 +171,23 @@ def file_case(item):
             singles.append(None)
             if first_err is None:
                 first_err = type(e).__name__
+    # the module-level entry points must agree with the parser objects (same ASTs / same error class)
+    from hpl.parser import parse_property, parse_specification
+    def outcome(f, t):
+        try:
+            return ('ok', f(t))
+        except Exception as e:
+            return ('err', type(e).__name__)
+    entry = len(text) % 3 == 0 or any(ord(ch) > 126 or ch in '\x0b\x0c\x1c\r' for ch in text)   # each call of an entry point builds a parser (slow): a third of the files + all exotic ones
+    a, b = (outcome(parse_specification, text), outcome(fp.parse, text)) if entry else (('ok', None), ('ok', None))
+    if not entry:
+        pass
+    elif a[0] != b[0] or (a[0] == 'err' and a[1] != b[1]) or (a[0] == 'ok' and (a[1] != b[1] or [p.metadata for p in a[1].properties] != [p.metadata for p in b[1].properties])):
+        return ('entry-point-differs', f'parse_specification(text) gives {a[0]} {a[1] if a[0] == "err" else ""} but specification_parser().parse(text) gives {b[0]} {b[1] if b[0] == "err" else ""}', text)
+    for t, _md, _err in (members[:1] if entry else []):
+        a, b = outcome(parse_property, t), outcome(pp.parse, t)
+        if a[0] != b[0] or (a[0] == 'err' and a[1] != b[1]) or (a[0] == 'ok' and (a[1] != b[1] or a[1].metadata != b[1].metadata)):
+            return ('entry-point-differs', f'parse_property and property_parser().parse disagree on a member', t)
     try:
         spec = fp.parse(text)
     except Exception as e:
@@ -256,7 +278,7 @@ def main() -> int:
     ck.sample({'file': items[7][0][0][0] + ' ...', 'members': len(items[7][0])})
     ck.bound('GX', 'all bracketed token strings up to the bound (files of up to ~3 short properties)')
     ck.bound('SP', 'annotation key sequences of length 1..4 over {id, title, description}, keys symbolic')
-    ck.bound('end-to-end', f'{len(items)} files of 1..6 members from 6 valid and 10 invalid properties (each error class), 16 annotation subsets/orders, 5 separators')
+    ck.bound('end-to-end', f'{len(items)} files of 1..6 members from 8 valid and 14 invalid properties (each error class), 16 annotation subsets/orders (strings with form feed, VT, FS, NEL, U+2028, CR inside), 8 whitespace separators; every file through both parse_specification() and specification_parser().parse()')
     ck.coverage['evaluations'] = len(items)
     ck.coverage['distinct_nontrivial'] = len({''.join(m[0] for m in it[0]) for it in items})
     ck.coverage['rule'] = 'one evaluation = one generated file parsed as a file and member by member; distinct = distinct member sequence'
